@@ -41,6 +41,16 @@ print("UNCLASSIFIED",len(un))
 for r,m in un: print("   ",r,"::",m[:160])
 if '--write' in sys.argv:
     os.makedirs('/verif/findings',exist_ok=True)
+    # dialect boundary (not findings): rows goag rejects with an error. Produced by
+    # running the check with VERIF_DUMP_LISTS=/tmp/c01lists
+    try:
+        nc=set(open('/tmp/c01lists.rejected_noclient').read().split())
+        cl=set(open('/tmp/c01lists.rejected_client').read().split())-nc
+        open('/verif/findings/D-rejected-noclient.rows','w').write(''.join(x+'\n' for x in sorted(nc) if x.startswith('kind/')))
+        open('/verif/findings/D-rejected-client.rows','w').write(''.join(x+'\n' for x in sorted(cl) if x.startswith('kind/')))
+        print('rejected rows: noclient',len(nc),'client-only',len(cl))
+    except FileNotFoundError:
+        print('no rejected lists dumped')
     for fid,_,desc in FAM:
         with open('/verif/findings/%s.rows'%fid,'w') as f:
             for r in fam[fid]: f.write('row:'+r+'\n')
